@@ -1,4 +1,5 @@
 import FeatherModel.Lemmas.ClassReadMethods
+import FeatherModel.Lemmas.ClassReadModule
 
 /-! C01 lemmas: `read_method` on an encoded method and the class attribute loop. -/
 
@@ -18,6 +19,7 @@ theorem methodFrameOk (p : Pool) (bsms : Option (List Bsm)) (a : SMethodAttr) (h
   | signature nc cp sig => exact ⟨ha.1, by simp [SMethodAttr.raw, be16_length]⟩
   | unknown nc name b => exact ⟨ha.1, ha.2.2.2⟩
   | annotations nc visible as => exact ⟨ha.1, ha.2.2.2.2⟩
+  | typeAnnotations nc visible as => exact ⟨ha.1, ha.2.2.2.2⟩
   | annotationDefault nc e => exact ⟨ha.1, ha.2.2.2⟩
   | methodParameters nc ps =>
     refine ⟨ha.1, ?_⟩
@@ -42,7 +44,7 @@ theorem readMethod_enc (p : Pool) (bsms : Option (List Bsm)) (m : MethodLayout) 
 
 /-- the reader's class-attribute state corresponds to the accumulated description -/
 def CRel (st : ClassAttrState) (acc : ClassAcc) : Prop :=
-  st.facts = acc.1 ∧ st.bsms = acc.2 ∧ st.hadRecord = false
+  st.facts = acc.1 ∧ st.bsms = acc.2.1 ∧ st.hadRecord = acc.2.2
 
 theorem readInner_enc (p : Pool) (e : SInner) (he : e.Legal p) (r : Bytes) :
     readInnerClass p (e.encode ++ r) = ok (⟨e.inner, e.outer, e.name, e.flags &&& maskInner⟩, r) := by
@@ -185,7 +187,7 @@ theorem readClassAttr_enc (p : Pool) (a : SClassAttr) (ha : a.Legal p) (st : Cla
     obtain ⟨h1, h2, h3, h4, hbody⟩ := ha
     obtain ⟨n1, n2, n3, n4, n5, n6, n7, n8, n9, n10, n11, n12, n13, n14, n15, n16, n17, n18⟩ := classNe_BootstrapMethods
     simp only [SClassAttr.apply] at h
-    cases hc : acc.2 with
+    cases hc : acc.2.1 with
     | some _ => simp [hc] at h
     | none =>
       simp only [hc, Option.isNone_none, if_true, Option.some.injEq] at h; subst h
@@ -195,7 +197,7 @@ theorem readClassAttr_enc (p : Pool) (a : SClassAttr) (ha : a.Legal p) (st : Cla
       simp only [List.append_assoc] at hvec
       exact ⟨{ st with bsms := some (ms.map fun m => ⟨m.handle, m.args⟩) },
         by simp only [readClassAttr, SClassAttr.raw, attrFrame, List.append_assoc, u16_be16 _ h1, ok_bind, h2, u32_be32 _ hbody,
-          n1, n2, n3, n4, n5, n6, n7, n8, n9, n10, n11, n12, n13, n14, n15, n16, n17, n18, if_false, if_true, hrec, Bool.false_eq_true,
+          n1, n2, n3, n4, n5, n6, n7, n8, n9, n10, n11, n12, n13, n14, n15, n16, n17, n18, if_false, if_true,
           hvec, hc', insertIfEmpty_none, pure_eq],
         hf, rfl, hrec⟩
   | annotations nc visible as =>
@@ -217,6 +219,119 @@ theorem readClassAttr_enc (p : Pool) (a : SClassAttr) (ha : a.Legal p) (st : Cla
       exact ⟨{ st with facts := { st.facts with ria := st.facts.ria ++ as.map SAnno.fact } },
         by simp only [readClassAttr, SClassAttr.raw, attrFrame, List.append_assoc, u16_be16 _ h1, ok_bind, h2, u32_be32 _ h5,
           n1, n2, n3, n4, n5, n6, n7, n8, if_false, if_true, hread, pure_eq],
+        by simp [hf], hb, hrec⟩
+  | typeAnnotations nc visible as =>
+    obtain ⟨h1, h2, h3, h4, h5⟩ := ha
+    have hread : readTypeAnnos p readTargetClass (encTypeAnnos as ++ r) = ok (as.map STypeAnno.fact, r) :=
+      readTypeAnnos_enc p .cls as h3 h4 r
+    cases visible with
+    | true =>
+      obtain ⟨n1, n2, n3, n4, n5, n6, n7, n8, n9⟩ := classNe_RVTA
+      simp only [SClassAttr.apply, if_true, Option.some.injEq] at h; subst h
+      simp only [if_true] at h2
+      exact ⟨{ st with facts := { st.facts with rvta := st.facts.rvta ++ as.map STypeAnno.fact } },
+        by simp only [readClassAttr, SClassAttr.raw, attrFrame, List.append_assoc, u16_be16 _ h1, ok_bind, h2, u32_be32 _ h5,
+          n1, n2, n3, n4, n5, n6, n7, n8, n9, if_false, if_true, hread, pure_eq],
+        by simp [hf], hb, hrec⟩
+    | false =>
+      obtain ⟨n1, n2, n3, n4, n5, n6, n7, n8, n9, n10⟩ := classNe_RITA
+      simp only [SClassAttr.apply, Bool.false_eq_true, if_false, Option.some.injEq] at h; subst h
+      simp only [Bool.false_eq_true, if_false] at h2
+      exact ⟨{ st with facts := { st.facts with rita := st.facts.rita ++ as.map STypeAnno.fact } },
+        by simp only [readClassAttr, SClassAttr.raw, attrFrame, List.append_assoc, u16_be16 _ h1, ok_bind, h2, u32_be32 _ h5,
+          n1, n2, n3, n4, n5, n6, n7, n8, n9, n10, if_false, if_true, hread, pure_eq],
+        by simp [hf], hb, hrec⟩
+  | sourceDebugExtension nc sde =>
+    obtain ⟨h1, h2, h3, h4⟩ := ha
+    obtain ⟨n1, n2, n3, n4, n5, n6⟩ := classNe_SourceDebugExtension
+    simp only [SClassAttr.apply] at h
+    cases hc : acc.1.sourceDebugExtension with
+    | some _ => simp [hc] at h
+    | none =>
+      simp only [hc, Option.isNone_none, if_true, Option.some.injEq] at h; subst h
+      have hc' : st.facts.sourceDebugExtension = none := by rw [hf]; exact hc
+      exact ⟨{ st with facts := { st.facts with sourceDebugExtension := some sde } },
+        by simp only [readClassAttr, SClassAttr.raw, attrFrame, List.append_assoc, u16_be16 _ h1, ok_bind, h2, u32_be32 _ h4,
+          n1, n2, n3, n4, n5, n6, if_false, if_true, takeN_append, Mutf8.decode_encode sde h3, ofOption_some, hc', insertIfEmpty_none, pure_eq],
+        by simp [hf], hb, hrec⟩
+  | record nc comps =>
+    obtain ⟨h1, h2, h3, h4, hbody⟩ := ha
+    obtain ⟨n1, n2, n3, n4, n5, n6, n7, n8, n9, n10, n11, n12, n13, n14, n15, n16, n17⟩ := classNe_Record
+    simp only [SClassAttr.apply] at h
+    cases hr2 : acc.2.2 with
+    | true => simp [hr2] at h
+    | false =>
+      cases hcs : mapOpt RecordLayout.facts comps with
+      | none => simp [hr2, hcs] at h
+      | some cs =>
+        simp only [hr2, hcs, Bool.false_eq_true, if_false, Option.some.injEq] at h; subst h
+        have hrec' : st.hadRecord = false := by rw [hrec]; exact hr2
+        have hl := mapOpt_length _ _ _ hcs
+        have hvec := readVec16_flatMap' (readRecordComponent p) RecordLayout.encode (fun c => (c.facts).getD default) comps h3
+          (fun c hc r => by
+            obtain ⟨k, hk, hk'⟩ := List.getElem_of_mem hc
+            have hkf : comps[k]? = some c := by rw [List.getElem?_eq_getElem hk, hk']
+            have hk2 : k < cs.length := by omega
+            have := mapOpt_get _ _ _ hcs k c cs[k] hkf (by rw [List.getElem?_eq_getElem hk2])
+            rw [this]
+            exact readRecordComponent_enc p c (h4 c hc) cs[k] this r) r
+        have hmap : comps.map (fun c => (c.facts).getD default) = cs := by
+          apply List.ext_getElem?
+          intro k
+          by_cases hk : k < comps.length
+          · have hk2 : k < cs.length := by omega
+            have := mapOpt_get _ _ _ hcs k comps[k] cs[k] (by rw [List.getElem?_eq_getElem hk]) (by rw [List.getElem?_eq_getElem hk2])
+            simp [List.getElem?_eq_getElem hk, List.getElem?_eq_getElem hk2, this]
+          · have hk2 : ¬ k < cs.length := by omega
+            simp [List.getElem?_eq_none (Nat.le_of_not_lt hk), List.getElem?_eq_none (Nat.le_of_not_lt hk2)]
+        rw [hmap] at hvec
+        exact ⟨{ st with facts := { st.facts with recordComponents := st.facts.recordComponents ++ cs }, hadRecord := true },
+          by simp only [readClassAttr, SClassAttr.raw, attrFrame, List.append_assoc, u16_be16 _ h1, ok_bind, h2, u32_be32 _ hbody,
+            n1, n2, n3, n4, n5, n6, n7, n8, n9, n10, n11, n12, n13, n14, n15, n16, n17, if_false, if_true, hrec', Bool.false_eq_true,
+            hvec, pure_eq],
+          by simp [hf], hb, rfl⟩
+  | module nc m =>
+    obtain ⟨h1, h2, h3, h4⟩ := ha
+    obtain ⟨n1, n2, n3, n4, n5, n6, n7, n8, n9, n10, n11⟩ := classNe_Module
+    simp only [SClassAttr.apply] at h
+    cases hc : acc.1.module with
+    | some _ => simp [hc] at h
+    | none =>
+      simp only [hc, Option.isNone_none, if_true, Option.some.injEq] at h; subst h
+      have hc' : st.facts.module = none := by rw [hf]; exact hc
+      exact ⟨{ st with facts := { st.facts with module := some m.fact } },
+        by simp only [readClassAttr, SClassAttr.raw, attrFrame, List.append_assoc, u16_be16 _ h1, ok_bind, h2, u32_be32 _ h4,
+          n1, n2, n3, n4, n5, n6, n7, n8, n9, n10, n11, if_false, if_true, readModule_enc p m h3 r, hc', insertIfEmpty_none, pure_eq],
+        by simp [hf], hb, hrec⟩
+  | modulePackages nc ps =>
+    obtain ⟨h1, h2, h3⟩ := ha
+    obtain ⟨n1, n2, n3, n4, n5, n6, n7, n8, n9, n10, n11, n12⟩ := classNe_ModulePackages
+    simp only [SClassAttr.apply] at h
+    cases hc : acc.1.modulePackages with
+    | some _ => simp [hc] at h
+    | none =>
+      simp only [hc, Option.isNone_none, if_true, Option.some.injEq] at h; subst h
+      have hc' : st.facts.modulePackages = none := by rw [hf]; exact hc
+      have hbody : (encRefs ps).length < 4294967296 := by
+        have := length_flatMap_const (fun x : Nat × JStr => be16 x.1) 2 ps (fun _ _ => rfl)
+        have := h3.1
+        simp [encRefs, be16_length, *]; omega
+      exact ⟨{ st with facts := { st.facts with modulePackages := some (ps.map (·.2)) } },
+        by simp only [readClassAttr, SClassAttr.raw, attrFrame, List.append_assoc, u16_be16 _ h1, ok_bind, h2, u32_be32 _ hbody,
+          n1, n2, n3, n4, n5, n6, n7, n8, n9, n10, n11, n12, if_false, if_true, readPackageRefs_enc p ps h3 r, hc', insertIfEmpty_none, pure_eq],
+        by simp [hf], hb, hrec⟩
+  | moduleMainClass nc cp c =>
+    obtain ⟨h1, h2, h3, h4⟩ := ha
+    obtain ⟨n1, n2, n3, n4, n5, n6, n7, n8, n9, n10, n11, n12, n13⟩ := classNe_ModuleMainClass
+    simp only [SClassAttr.apply] at h
+    cases hc : acc.1.moduleMainClass with
+    | some _ => simp [hc] at h
+    | none =>
+      simp only [hc, Option.isNone_none, if_true, Option.some.injEq] at h; subst h
+      have hc' : st.facts.moduleMainClass = none := by rw [hf]; exact hc
+      exact ⟨{ st with facts := { st.facts with moduleMainClass := some c } },
+        by simp [readClassAttr, SClassAttr.raw, attrFrame, u16_be16 _ h1, h2, be16_length, u32_be32 2 (by decide),
+          n1, n2, n3, n4, n5, n6, n7, n8, n9, n10, n11, n12, n13, readClassRef, u16_be16 _ h3, h4, hc', insertIfEmpty_none],
         by simp [hf], hb, hrec⟩
   | unknown nc name b =>
     obtain ⟨h1, h2, hnot, hlen⟩ := ha
